@@ -66,6 +66,11 @@ theorem C05_server_response_order {cfg : S.Cfg} {tr : List S.Ev} {s : S.State} (
     poller's workers serve the connection at once. -/
 theorem C05_poll_mode_is_the_same_automaton : Gen.pollReadAndDispatchUnderReceiveLock = true := by decide
 
+/-- Different connections stay independent in poll mode too: the single-worker execution queue (and
+    the decode and stream queues) of a connection is created inside the per-connection callback, so S
+    — one automaton per connection, sharing nothing — describes each of them (read from listen()). -/
+theorem C05_poll_queues_are_per_connection : Gen.pollQueuesPerConnection = true := by decide
+
 /-- The client half: with pipelining every completion goes through the ordered completion queue and
     the sweep fails the pending calls in sequence-number order (facts read from conn.go). -/
 theorem C05_client_source_facts :
